@@ -97,7 +97,7 @@ CHECKS.update({
             "From 196 merchants seeds and 32 views seeds every text reachable by <=2 layout edits (<=3 for one-section seeds in thorough) is parsed by the real loader and must yield "
             "exactly the seed's structure (~0.9M states quick); edits include comments holding Unicode / C0 line-separator characters. Every single-line deletion, structural-character deletion, unknown key, malformed let/field/priority/match/filter and "
             "5 invalid-expression kinds on every seed must be rejected with the offending line or its header (or read as the strict reader reads it); every seed written to disk as LF / CRLF with and without a BOM must load to the same reading; 8 corruption kinds x "
-            "`tally up` (2 forms) / `diag` / `discover` (2) / `explain` (3) must show the error and must not behave as with an empty rules file.",
+            "`tally up` (4 forms incl. --quiet) / `diag` / `discover` (2) / `explain` (3) must show the error and must not behave as with an empty rules file.",
             "strict reader = mc/ref/rulesfile.py; ambiguous corruptions (duplicate single-valued keys) not judged",
             "DESIGN.md 4/C17"),
 })
